@@ -581,6 +581,12 @@ impl<Ctx> Bundle<Ctx> for TransferFunction {
         let has_gamma = bitstream.read_bool()?;
         if has_gamma {
             let gamma = bitstream.read_bits(24)?;
+            // The exponent `gamma / 1e7` must be in (0, 1]. Like libjxl, also reject exponents
+            // below 1/8192: their inverse does not fit the s15Fixed16 parameter of an ICC curve.
+            if gamma > 10_000_000 || u64::from(gamma) * 8192 < 10_000_000 {
+                tracing::error!(gamma, "Invalid gamma");
+                return Err(Error::ValidationFailed("Invalid gamma"));
+            }
             Ok(Self::Gamma {
                 g: gamma,
                 inverted: true,
